@@ -1837,3 +1837,28 @@ S('c07-position-from-original-list', 'C07', PB,
 S('c10-describe-without-conf', 'C10', PB,
   '''        self.fields = sum([field._describe_yourself(name, self.bisturi_conf) \\''',
   '''        self.fields = sum([field._describe_yourself(name, {}) \\''', 'R8-conf-plumbing')
+
+# =========================================================================== C08 / C18 additions
+S('c08-repeated-until-when-swapped', 'C08', F,
+  '''            count=count,
+            until=until,
+            when=when,''',
+  '''            count=count,
+            until=when,
+            when=until,''', 'C08-modifier-plumbing')
+S('c08-count-and-until-accepted', 'C08', SF,
+  '''        if (count is None
+            and until is None) or (count is not None and until is not None):''',
+  '''        if (count is None
+            and until is None):''', 'C08-modifier-plumbing')
+S('c18-any-ne-true', 'C18', PM,
+  '''    def ne_for_any(self, other):
+        return False''',
+  '''    def ne_for_any(self, other):
+        return other is None''', 'R12-any-equality')
+S('c18-anything-like-skips-private', 'C18', PM,
+  '''    for field_name, field, _, _ in pkt_class.get_fields():
+        setattr(pkt, field_name, Any())''',
+  '''    for field_name, field, _, _ in pkt_class.get_fields():
+        if field.is_fixed:
+            setattr(pkt, field_name, Any())''', 'R12-any-equality')
